@@ -124,6 +124,14 @@ def step (m : OrdMap) (op : Op) (refused : Bool) : Out × OrdMap :=
   | .foreachValue => ({ log := values m }, m)
   | .size => ({ val := some m.length }, m)
 
+/-- a history: every call comes with the answer of the allocator to its (single) request -/
+def run (m : OrdMap) : List (Op × Bool) → List Out × OrdMap
+  | [] => ([], m)
+  | (op, refused) :: rest =>
+    let r := step cmp m op refused
+    let rs := run r.2 rest
+    (r.1 :: rs.1, rs.2)
+
 /-! ### ideal cursor: the keys still to be yielded are fixed when the iterator is created -/
 
 structure Cursor where
@@ -145,6 +153,27 @@ def Cursor.remove (c : Cursor) (m : OrdMap) : Stat × Option Nat × Cursor × Or
   match c.last with
   | none => (.errKeyNotFound, none, c, m)
   | some k => (.ok, lookup m k, { c with last := none }, erase m k)
+
+/-- iterator programs -/
+inductive IterOp where
+  | next | remove
+  deriving Repr, DecidableEq
+
+/-- `next` reports the yielded key in `val` and its value in `log` -/
+def Cursor.step (c : Cursor) (m : OrdMap) : IterOp → Out × Cursor × OrdMap
+  | .next =>
+    let r := c.next m
+    ({ st := some r.1, val := r.2.1.map (·.1), log := (r.2.1.map (fun e => [e.2])).getD [] }, r.2.2, m)
+  | .remove =>
+    let r := c.remove m
+    ({ st := some r.1, val := r.2.1 }, r.2.2.1, r.2.2.2)
+
+def Cursor.run (c : Cursor) (m : OrdMap) : List IterOp → List Out × Cursor × OrdMap
+  | [] => ([], c, m)
+  | op :: rest =>
+    let r := c.step m op
+    let rs := Cursor.run r.2.1 r.2.2 rest
+    (r.1 :: rs.1, rs.2)
 
 end OrdMap
 end CC.Spec
